@@ -79,6 +79,14 @@ func (e *Engine) evalCall(cx *ast.CallExpr, st *State) Value {
 			argExprs = append(argExprs, cx.Args[i])
 		}
 		el := sig.Params().At(np - 1).Type().(*types.Slice).Elem()
+		if _, isIface := el.Underlying().(*types.Interface); isIface {
+			// ...any: arguments are evaluated for their effects only
+			for i := np - 1; i < len(cx.Args); i++ {
+				e.eval(cx.Args[i], st)
+			}
+			args = append(args, VSlice{Arr: e.fresh("anyargs", arraySort(SInt, SRef)), Len: mkInt(int64(len(cx.Args) - np + 1)), Elem: el})
+			return e.callFunc(fn, recv, args, cx, st)
+		}
 		es := e.elemSort(el)
 		arr := e.fresh("varargs.arr", arraySort(SInt, es))
 		n := 0
@@ -536,6 +544,16 @@ func (e *Engine) callFunc(fn *types.Func, recv Value, args []Value, cx *ast.Call
 	// interface method
 	if sig := fn.Type().(*types.Signature); sig.Recv() != nil {
 		if _, isIface := sig.Recv().Type().Underlying().(*types.Interface); isIface {
+			// static type of the receiver value is concrete (an interface parameter bound to a concrete argument in an inlined body)
+			if rt, ok := recv.(VTerm); ok && rt.Typ != nil {
+				if _, stillIface := rt.Typ.Underlying().(*types.Interface); !stillIface {
+					if obj, _, _ := types.LookupFieldOrMethod(rt.Typ, true, nil, fn.Name()); obj != nil {
+						if cm, ok := obj.(*types.Func); ok {
+							return e.callFunc(cm, recv, args, cx, st)
+						}
+					}
+				}
+			}
 			if rt, ok := recv.(VTerm); ok {
 				if dt, ok := e.dynType[rt.T.String()]; ok {
 					if obj, _, _ := types.LookupFieldOrMethod(dt, true, nil, fn.Name()); obj != nil {
@@ -878,8 +896,9 @@ func (e *Engine) callContract(c *Contract, fn *types.Func, recvName string, recv
 	for _, cf := range clos {
 		e.handleClosureArg(cf.lit, cf.fv, st, where)
 	}
-	if len(e.frames) == 1 {
+	{
 		rk := strings.NewReplacer(".", "_", "interface ", "").Replace(c.Key)
+		e.callArgs[rk] = append(e.callArgs[rk], append([]Value(nil), args...))
 		if len(results) == 1 {
 			e.callRes[rk] = append(e.callRes[rk], results[0])
 		} else if len(results) > 1 {
